@@ -111,6 +111,9 @@ func ParsePatterns(docs ...*ast.CommentGroup) (patterns []string, hasDirective b
 			if c == nil {
 				continue
 			}
+			if !strings.HasPrefix(c.Text, "//go:embed") {
+				continue // "// go:embed" with a space is an ordinary comment
+			}
 			line := strings.TrimSpace(strings.TrimPrefix(c.Text, "//"))
 			args, ok := ParseDirective(line)
 			if !ok {
